@@ -1,6 +1,7 @@
 package main
 
 import (
+	"math/big"
 	"math"
 	"math/rand"
 
@@ -77,6 +78,32 @@ func runC03(c map[string]interface{}) []Event {
 			e["d2K"] = int(math.Round(d * d * c03K))
 			md := ml.Distance(q)
 			e["mld2K"] = int(math.Round(md * md * c03K))
+		})
+		return []Event{e}
+	case "near":
+		l := geom.LineString(decPath(c["path"], intDec))
+		q := decPoint(c["q"], intDec)
+		d2 := arr(c["d2"])
+		e := Event{"ev": "near", "errscale12": 1 << 30, "mlerrscale12": 1 << 30}
+		e["out"] = safely(func() {
+			// exact distance from the case's rational squared distance, in 200-bit arithmetic
+			t := new(big.Float).SetPrec(200).Quo(new(big.Float).SetPrec(200).SetInt64(int64(num(d2[0]))), new(big.Float).SetPrec(200).SetInt64(int64(num(d2[1]))))
+			t.Sqrt(t)
+			scale := 0.0
+			for _, p := range append([]geom.Point{q}, l...) {
+				scale = math.Max(scale, math.Max(math.Abs(p.X), math.Abs(p.Y)))
+			}
+			rel := func(d float64) int {
+				diff := new(big.Float).SetPrec(200).Sub(new(big.Float).SetPrec(200).SetFloat64(d), t)
+				f, _ := diff.Abs(diff).Float64()
+				v := f / scale * 1e12
+				if math.IsNaN(v) || v > 1e9 {
+					return 1 << 30
+				}
+				return int(math.Round(v))
+			}
+			e["errscale12"] = rel(l.Distance(q))
+			e["mlerrscale12"] = rel(geom.MultiLineString{l, l}.Distance(q))
 		})
 		return []Event{e}
 	case "buffer":
